@@ -171,10 +171,15 @@ class Sym:
             num = num.scale(1 / c)
             den = Poly.const(1)
         else:
-            lead = den.terms[max(den.terms, key=mono_key)]
-            if lead != 1:
-                num = num.scale(1 / lead)
-                den = den.scale(1 / lead)
+            if not num.is_zero():
+                q, r = poly_divmod(num, den)     # exact cancellation when den divides num
+                if r.is_zero():
+                    num, den = q, Poly.const(1)
+            if not den.is_const():
+                lead = den.terms[max(den.terms, key=mono_key)]
+                if lead != 1:
+                    num = num.scale(1 / lead)
+                    den = den.scale(1 / lead)
         if num.is_zero():
             den = Poly.const(1)
         self.num, self.den, self._fp = num, den, None
@@ -313,6 +318,18 @@ class Sym:
             if a[0] == 'f':
                 return mk_func(a[1], *[x.subs(mapping) for x in a[2]])
             return Sym(Poly.atom(a))
+        return sub_poly(self.num) / sub_poly(self.den)
+
+    def subs_atoms(self, mapping):
+        """Replace top-level atoms by Syms (no recursion into function arguments)."""
+        def sub_poly(p):
+            tot = Sym.const(0)
+            for m, c in p.terms.items():
+                t = Sym.const(c)
+                for a, e in m:
+                    t = t * ((mapping[a] if a in mapping else Sym(Poly.atom(a))) ** e)
+                tot = tot + t
+            return tot
         return sub_poly(self.num) / sub_poly(self.den)
 
     # ---- exact evaluation of the *normal form* at a rational point (used only to exhibit a
@@ -511,6 +528,21 @@ def reduce_mod(s, gens):
     return Sym(num, s.den)
 
 
+def reduce_deep(s, gens):
+    """Reduce modulo gens also inside the arguments of function atoms (congruence closure for the
+    single-generator / triangular generator sets used by the rules)."""
+    mapping = {}
+    for a in s.atoms():
+        if a[0] == 'f':
+            new_args = [reduce_deep(x, gens) for x in a[2]]
+            mapping[a] = mk_func(a[1], *new_args)
+    if mapping:
+        s = s.subs_atoms(mapping)
+    if s.is_poly():
+        return reduce_mod(s, gens)
+    return Sym(reduce_mod(Sym(s.num), gens).num, reduce_mod(Sym(s.den), gens).num)
+
+
 def equal_mod(a, b, gens):
     """a == b modulo the ideal generated by gens (sound: True means provably equal when all gens
     vanish; completeness holds for the linear generators used by the rules)."""
@@ -519,7 +551,9 @@ def equal_mod(a, b, gens):
         return True
     if not gens:
         return False
-    return reduce_mod(Sym(d.num), gens).num.is_zero()
+    if reduce_mod(Sym(d.num), gens).num.is_zero():
+        return True
+    return (reduce_deep(as_sym(a), gens) - reduce_deep(as_sym(b), gens)).num.is_zero()
 
 
 # ------------------------------------------------------------------ printing
